@@ -46,13 +46,13 @@ def one_run(res, seed, idx, cancel_at, phase, job_bias, pressure=None, defer=Non
         # record block completion (the advance job returned) from outside
         orig_adv = w.bp.advance_block
 
-        def advance_block(block):
+        def advance_block(block, *args, **kwargs):
             if phase == 'initial_reorg' and state['phase_started'] is None and state.get('switched') \
                     and next(b for b in gen.blocks if b.hex_hash == block.hex_hash).parent.hash != w.bp.state.tip:
                 # the block that reveals the reorganisation: the requests of this phase are injected
                 # from here on (first of all while this very job is still running / undelivered)
                 state['phase_started'] = w.loop.iterations
-            orig_adv(block)
+            orig_adv(block, *args, **kwargs)
             if w.bp.reorg_count is None:
                 completed[0] = w.bp.state.height
         w.bp.advance_block = advance_block
